@@ -40,6 +40,11 @@ CLAIMED = {
         "Static: for every constructible chord (root = letter x arbitrary accidentals, chord tones = root + constant) in every rotation the shorthand answer contains a name on the root whose formula equals the chord's, the long answer at the same position is root + meaning + the right inversion ordinal, both forms have equal length, neither raises, and every answered name (incl. polychord halves) is a constructible shorthand; every name constant a recogniser can emit is a key of both tables; int_desc covers 1..6; each row of the triad table names a chord containing the three notes; 0/1/2 notes give the documented answers.",
         "Quick tier uses 3 (triads/sevenths) or 2 (5-6 note chords) root letters with arbitrary accidentals, thorough all 7. Not decided: soundness of answers for arbitrary non-constructible 4-7 note inputs. Trusted: CPython ast, abstract evaluator (variants/c07.py), C02/C03/C06 summaries and oracles.",
         "DESIGN.md section 2, C07"),
+    "C08": (
+        "specialisation of chords.triads/sevenths and all function/numeral accessors to the 30 key-table rows; fold and count-down summaries of the numeral parser/formatter on symbolic prefixes; specialisation of to_chords / progressions.determine / the substitution rules over their finite alphabets; effect check of substitute()'s argument",
+        "Static: in every key the 7 triads and sevenths and all 14 function names and numeral aliases (either case, with 7) equal the stacks of thirds inside the oracle key notes; parse_string yields (upper-cased numeral, #sharps - #flats, suffix) for any accidental prefix, tuple_to_string prepends exactly |acc| characters of the right kind for -6..6 and the two are inverse on well-formed numerals; to_chords denotes the right chord for numerals x case x {'', '7'} x prefixes -3..3, rebuilds chord suffixes on the degree's root, maps lists element-wise and answers [] for unknown numerals; every diatonic triad/seventh of a major key gets its function/numeral; each substitution rule keeps its promise and returns well-formed numerals; substitute() leaves the caller's list unchanged.",
+        "Quick tier uses 7 of the 30 keys for to_chords and 5 of the 15 major keys for determine (thorough: all). Not decided: substitution recursion beyond depth 2; prefixes beyond +-6. Trusted: CPython ast, abstract evaluator (variants/c08.py), C04/C06/C07 oracles and models.",
+        "DESIGN.md section 2, C08"),
     "C06": (
         "offset-domain abstract interpretation of every chord builder (interval constructors summarised by their C02 post-condition) against a meaning-keyed chord-theory oracle; table agreement; abstract evaluation of the shorthand parser on root shapes x keys, aliases, slash, polychord, NC, list and malformed classes",
         "Static: each of the shorthand builders (incl. the lambda) yields, for 7 root letters x arbitrary accidentals, exactly the (letter, semitone) list its meaning prescribes; chord_shorthand and chord_shorthand_meaning have equal key sets; from_shorthand maps every key, every min/mi/-/maj/ma alias spelling, slash basses, polychords, NC and list input to the right builder result and rejects unknown suffixes / bad roots / bad basses with the documented errors.",
